@@ -804,6 +804,9 @@ def extract_fn(repo, fnspec):
             n = body.count(anchor)
             nth = int(d.get('nth', 0))
             expect = int(d.get('of', 1)) if not nth else int(d.get('of', n))
+            if n == 0 and d.get('optional'):
+                log.append(f"ghost hint after/before {anchor!r}: anchor not present, hint skipped (optional; the obligations are checked without it)")
+                continue
             if n == 0 or (not nth and n != 1) or (nth and (nth > n or n != expect)):
                 raise ExtractError(f"ghost-insert anchor lost: {anchor!r} matched {n}x (nth={nth or 1}, expected {expect})")
             pos = -1
